@@ -13,6 +13,16 @@ import numpy
 import xarray
 
 
+DATETIME_BASE = numpy.datetime64('2000-01-01T00:00:00', 'ns')
+
+
+def datetime_to_ids(values):
+    """Inverse of Var.typed for datetime variables: datetime64 array -> float ids (NaT -> NaN)."""
+    values = numpy.asarray(values).astype('datetime64[ns]')
+    out = (values - DATETIME_BASE) / numpy.timedelta64(1, 's')
+    return numpy.where(numpy.isnat(values), numpy.nan, out.astype('float64'))
+
+
 class Kind:
     def __init__(self, name, dims, shape):
         self.name = name
@@ -65,6 +75,11 @@ class Var:
 
     def typed(self, arr):
         """Values as stored in the file: NaN -> fill for integer variables, cast to the variable's dtype."""
+        if self.dtype.startswith('datetime64'):
+            out = numpy.full(arr.shape, numpy.datetime64('NaT', 'ns'), dtype='datetime64[ns]')
+            ok = ~numpy.isnan(arr)
+            out[ok] = DATETIME_BASE + arr[ok].astype('int64') * numpy.timedelta64(1, 's')
+            return out
         if self.dtype.startswith('float'):
             return arr.astype(self.dtype)
         out = numpy.where(numpy.isnan(arr), self.fill[1] if self.fill else 0, arr)
@@ -78,11 +93,7 @@ class Var:
         return self.typed(arr)
 
     def data(self, model):
-        arr = self.layout(model)
-        if self.dtype.startswith('float'):
-            return arr.astype(self.dtype)
-        out = numpy.where(numpy.isnan(arr), self.fill[1] if self.fill else 0, arr)
-        return out.astype(self.dtype)
+        return self.typed(self.layout(model))
 
     def data_array(self, model):
         attrs = dict(self.attrs)
@@ -202,7 +213,9 @@ class Model:
 DTYPES = [
     ('float64', None), ('float64', None), ('float32', None),
     ('int32', None), ('int16', ('_FillValue', -999)), ('int32', ('missing_value', -99999)),
+    ('int32', ('_FillValue', 0)),
 ]
+DTYPES_WITH_DATETIME = DTYPES + [('datetime64[ns]', None)]
 
 
 def add_variables(model, rng, *, per_kind=(1, 2), extras=(), max_extra=3, dtypes=DTYPES,
@@ -234,7 +247,7 @@ def add_variables(model, rng, *, per_kind=(1, 2), extras=(), max_extra=3, dtypes
                 dtype = 'float64'
             if dtype == 'int16' and canon.max() >= 32000:
                 dtype = 'int32'
-            can_miss = dtype.startswith('float') or fill is not None
+            can_miss = dtype.startswith('float') or dtype.startswith('datetime64') or fill is not None
             if can_miss and missing > 0:
                 # missing values are static per cell for half the variables, scattered for the rest
                 if rng.random() < 0.5:
